@@ -14,6 +14,7 @@ import (
 	"errors"
 	"io/fs"
 	"os"
+	"time"
 
 	"github.com/snapcore/snapd/osutil/sys"
 	zz "github.com/snapcore/snapd/zzverif"
@@ -144,7 +145,26 @@ func c06install(d *c06disk) {
 		d.record("remove")
 		return nil
 	})
-	zz.Stub("os.IsNotExist", func(err error) bool { return false })
+	notExist := errors.New("no such file or directory")
+	zz.Stub("os.IsNotExist", func(err error) bool {
+		pe, ok := err.(*fs.PathError)
+		return ok && pe.Err == notExist
+	})
+	stat := func(name string) (fs.FileInfo, error) {
+		if err := d.step("stat"); err != nil {
+			return nil, err
+		}
+		d.record("stat")
+		if (name == d.target && d.volTarget != nil) || (name == d.tmp && d.tmp != "" && d.volTmp != nil) {
+			return c06info{name}, nil
+		}
+		return nil, &fs.PathError{Op: "stat", Path: name, Err: notExist}
+	}
+	zz.Stub("os.Lstat", stat)
+	zz.Stub("os.Stat", stat)
+	zz.Stub("os.Readlink", func(name string) (string, error) {
+		return "", &fs.PathError{Op: "readlink", Path: name, Err: errors.New("invalid argument")}
+	})
 	chown = func(f *os.File, uid sys.UserID, gid sys.GroupID) error {
 		if err := d.step("chown"); err != nil {
 			return err
@@ -153,6 +173,15 @@ func c06install(d *c06disk) {
 		return nil
 	}
 }
+
+type c06info struct{ name string }
+
+func (i c06info) Name() string       { return i.name }
+func (i c06info) Size() int64        { return 0 }
+func (i c06info) Mode() fs.FileMode  { return 0600 }
+func (i c06info) ModTime() time.Time { return time.Time{} }
+func (i c06info) IsDir() bool        { return false }
+func (i c06info) Sys() interface{}   { return nil }
 
 func c06bytesEq(a, b []byte) bool {
 	if len(a) != len(b) {
@@ -166,7 +195,11 @@ func c06bytesEq(a, b []byte) bool {
 }
 
 func Harness_C06_AtomicWrite() {
-	snapdUnsafeIO = false // a snapd binary, not a test binary
+	if zz.Param("c06.init", 0) == 0 {
+		snapdUnsafeIO = false // a snapd binary, not a test binary
+	}
+	// (with c06.init=1 the package initialiser has computed the flag for a binary that is not a
+	// test binary and has SNAPD_UNSAFE_IO set in its environment)
 	oldContent := []byte("old-content")
 	old := &c06inode{volatile: oldContent, durable: oldContent}
 	d := &c06disk{target: "/var/lib/snapd/state.json", files: map[*os.File]*c06inode{}, dirs: map[*os.File]bool{}, failAt: -1}
